@@ -9,7 +9,9 @@ THEOREMS = ["GmqttVerif.Queue.len_le_max", "GmqttVerif.Queue.conservation", "Gmq
             "GmqttVerif.Queue.replay_after_init", "GmqttVerif.Queue.drop_ladder", "GmqttVerif.Queue.counters_exact"]
 BIG = 4294967295
 
-def gen(rng):
+def gen(rng, age=True):
+    """age=True (mem backend only): some messages get expiry `soon` (alive when added and read) and `age` ops let that
+    deadline pass — the only way an element can expire AFTER it was handed out with in-flight expiry off, or while queued"""
     mx = rng.choice([1, 2, 2, 3, 3, 5])
     ie = rng.choice(["0", "0", "tiny", "huge"])
     limit = rng.choice([BIG, BIG, 25])
@@ -25,7 +27,7 @@ def gen(rng):
         r = rng.random()
         if r < add_w:
             tag += 1
-            exp = rng.choice(["none", "none", "none", "future", "past"])
+            exp = rng.choice(["none", "none", "none", "future", "past"] + (["soon", "soon"] if age else []))
             size = rng.choice([14, 20, 25, 26, 30]) if limit != BIG else 20
             ops.append(f"add {tag} {rng.choice(qos_w)} {exp} {size}")
         elif r < add_w + 0.2:
@@ -47,6 +49,8 @@ def gen(rng):
             ops.append(f"readinflight {rng.choice([0, 1, 2, 10])}")
         elif r < add_w + 0.49:
             ops.append("close")
+        elif age and r < add_w + 0.55:
+            ops.append("age")
         else:
             tag += 1
             ops.append(f"add {tag} {rng.choice(qos_w)} none 20")
@@ -56,6 +60,11 @@ def gen(rng):
     return ops
 
 ELEM = re.compile(r"^(\d+):(\d+):(\d+):(none|past|future)$")
+
+def _age(info):
+    for v in info.values():
+        if v[1] == "soon":
+            v[1] = "past"
 
 def parse_ret(line):
     m = re.search(r"ret=\[([^\]]*)\]", line)
@@ -94,7 +103,7 @@ def predicate(ops, out):
                 unread, infl, qsum, isum = [], [], 0, 0
             need_replay = list(infl)
         elif f[0] == "add":
-            tag = int(f[1]); info[tag] = (int(f[2]), f[3], int(f[4]))
+            tag = int(f[1]); info[tag] = [int(f[2]), f[3], int(f[4])]
             was_full = len(unread) + len(infl) >= mx
             unread.append(tag)
             if drops and not was_full:
@@ -184,6 +193,10 @@ def predicate(ops, out):
                         return f"`{op}` gave tag {t} id {rid}, expected the next supplied id"
                     used += 1
                     infl.append([t, rid])
+                    if ie != "0":
+                        info[t][1] = "infl"     # from now on the in-flight expiry governs, not the message's own deadline
+        elif f[0] == "age":
+            _age(info)
         elif f[0] == "remove":
             hit = [x for x in infl if x[1] == int(f[1])]
             if "q=-1" in evs:
@@ -226,7 +239,7 @@ GO_EXTRA = ["queue_redis"]      # cmd/drive_queue_redis: same line protocol, per
 
 def gen_redis(rng):
     """same histories as the mem stream, plus the occasional Read with an empty id list (`lrange cur cur-1`)"""
-    ops = gen(rng)
+    ops = gen(rng, age=False)
     if rng.random() < 0.1:
         ops.insert(rng.randint(2, len(ops) - 4), "read -")
     return ops
@@ -246,11 +259,12 @@ def run(r):
     return core.standard_run(r, __import__(__name__, fromlist=["x"]))
 
 RULE = ("random histories of new/init/add/read/readinflight/remove/replace/close on persistence/queue/mem through its public API "
-        "(capacity 1-5, QoS mix, expiry none/past/future, sizes around the read limit, in-flight expiry off/1ns/1h, 1-120 ops + final drain), "
+        "(capacity 1-5, QoS mix, expiry none/past/future/soon (+ `age` ops that let `soon` deadlines pass; mem backend), sizes around the read limit, in-flight expiry off/1ns/1h, 1-120 ops + final drain), "
         "each executed by the real code and by the Lean model and compared line by line; the Python predicate re-checks the property on the "
         "implementation's outputs. non-trivial = distinct history that fills the queue (a drop for `full`/`expiredinflight`) and later reads or re-initialises")
 ASSUME = ["sync.Mutex/Cond make each queue method atomic (one model step per call)",
-          "time is symbolic: expiry past/future = now∓2h; in-flight expiry 1ns or 1h",
+          "time is symbolic: expiry past/future = now∓2h; in-flight expiry 1ns or 1h; `soon` = a deadline in the future that an `age` op "
+          "moves into the past by back-dating the element the queue holds (mem backend keeps the caller's *queue.Elem)",
           "redis backend: stream queue-redis drives persistence/queue/redis over harness/internal/respfake (an in-process RESP2 server "
           "with redis' documented semantics for the 14 commands used), not a real redis; it is compared with the same Lean model, so "
           "agreement on a history = redis_refines_mem on that history"]
